@@ -15,6 +15,7 @@ import (
 	"encoding/base64"
 	"errors"
 	"fmt"
+	"reflect"
 	"sync"
 
 	"google.golang.org/protobuf/proto"
@@ -150,19 +151,25 @@ func pclone[T proto.Message](m T) T {
 // ---- collection / partition events
 
 func (h *Handler) CreateCollection(ctx context.Context, p *api.CreateCollectionParam) error {
-	c := &api.CreateCollectionParam{
-		MsgBaseParam:     api.MsgBaseParam{Base: cloneBase(p.Base)},
-		ReplicateParam:   p.ReplicateParam,
-		Schema:           p.Schema,
-		ShardsNum:        p.ShardsNum,
-		ConsistencyLevel: p.ConsistencyLevel,
-		Properties:       cloneKVs(p.Properties),
-	}
+	cv := *p // by value first: keeps fields a later version of the param may add
+	c := &cv
+	c.Base = cloneBase(p.Base)
+	c.Properties = cloneKVs(p.Properties)
 	if p.Schema != nil {
 		// deep copy via the SDK's own proto form: copies every attribute the type can hold (and re-derives the
 		// pk field).  (No import of the sdk package here: go.mod must not be rewritten by builds.)
 		cp := *p.Schema
 		c.Schema = (&cp).ReadProto(p.Schema.ProtoMessage())
+	}
+	// any further proto-message field (e.g. a proto schema added by a repair) is cloned as well
+	rv := reflect.ValueOf(c).Elem()
+	for i := 0; i < rv.NumField(); i++ {
+		f := rv.Field(i)
+		if f.Kind() == reflect.Ptr && !f.IsNil() && f.CanSet() {
+			if m, ok := f.Interface().(proto.Message); ok {
+				f.Set(reflect.ValueOf(proto.Clone(m)))
+			}
+		}
 	}
 	return h.record("CreateCollection", c, nil, "")
 }
